@@ -215,12 +215,22 @@ HOSTILE = ["sub", ".", "nosuchfile.conf", "package:nosuchpkg9:x",
 def include_case(rng, root):
     names = ["a.conf", "b.conf", "c.conf"]
     files = {}
+    here = os.path.basename(root.rstrip("/")) or "x"
+
+    def spelled(n):
+        # the same file by another relative spelling: an include cycle is
+        # a cycle however its edges are written
+        r = rng.random()
+        if r < 0.7:
+            return n
+        return rng.choice(["./@", "sub/../@", "../" + here + "/@",
+                           "././@", "sub/./../@", ".//@"]).replace("@", n)
     for n in names:
         lines = []
         for _ in range(rng.randint(0, 4)):
             r = rng.random()
             if r < 0.45:
-                lines.append("%include " + rng.choice(names))
+                lines.append("%include " + spelled(rng.choice(names)))
             elif r < 0.6:
                 lines.append("%include " + rng.choice(HOSTILE))
             elif r < 0.8:
